@@ -79,7 +79,7 @@ REFUSALS = [
     'gz-drop:createdDirs', 'gz-drop:rootOperations', 'gz-drop:buildName',
     'gz-drop:funcVersions', 'gz-drop:operationVersions',
     'gz-drop:cacheFileVersion', 'gz-drop:software', 'clean-gz-drop',
-    'gz-null', 'gz-string',
+    'gz-null', 'gz-string', 'gz-nested', 'gz-nested', 'clean-gz-nested',
     'wrong-name', 'name-not-str', 'func-not-callable', 'versions-not-dict',
     'versions-not-json', 'clean-wrong-name', 'clean-name-not-str',
     'clean-trunc', 'clean-not-gzip', 'cache-path-bad-type',
@@ -1308,7 +1308,7 @@ def gen_threads(seed, params=None):
         rel = (d + '/' if d else '') + 'same'
         if rng.random() < 0.6:
             b = [['bf', rel, rng.choice(['Fok', 'Fok2', 'Fbad']), [], {},
-                  'METADATA', True]]
+                  rng.choice(['METADATA', 'HASH', 'HASH']), True]]
             outputs.append(rel)
         else:
             funcs['Ssame'] = {'kind': 'sub', 'name': 'nSsame', 'variants': [
